@@ -5,6 +5,8 @@ import (
 	"fmt"
 	"os"
 	"path/filepath"
+
+	"github.com/specterops/dawgs/util/verifhook"
 )
 
 const manifestFileName = "manifest.json"
@@ -51,11 +53,13 @@ func writeManifest(outputDir string, value Manifest) error {
 	if err := os.WriteFile(tempPath, payload, 0o600); err != nil {
 		return fmt.Errorf("write manifest temp file: %w", err)
 	}
+	verifhook.At("manifest.tmp.write", tempPath)
 
 	if err := os.Rename(tempPath, finalPath); err != nil {
 		os.Remove(tempPath)
 		return fmt.Errorf("rename manifest: %w", err)
 	}
+	verifhook.At("manifest.rename", finalPath)
 
 	return nil
 }
